@@ -1,3 +1,4 @@
+mod conc;
 mod facade;
 mod gen;
 mod run;
@@ -25,6 +26,16 @@ fn main() {
         "run" => {
             let stdin = io::stdin();
             run::run_file(stdin.lock(), &mut out);
+        }
+        "conc" => {
+            let seed: u64 = args.get(2).and_then(|s| s.parse().ok()).unwrap_or(1);
+            let n: u64 = args.get(3).and_then(|s| s.parse().ok()).unwrap_or(100);
+            conc::run_programs(seed, n, &mut out);
+        }
+        "iterw" => {
+            let seed: u64 = args.get(2).and_then(|s| s.parse().ok()).unwrap_or(1);
+            let n: u64 = args.get(3).and_then(|s| s.parse().ok()).unwrap_or(10);
+            conc::run_iter_writers(seed, n, &mut out);
         }
         "gen" => {
             if args.len() < 6 {
